@@ -161,8 +161,10 @@ func (o *cmC04) afterTx(m *chainMachine, tx *cmTx) {
 		}
 	}
 }
-func (o *cmC04) afterAdvance(m *chainMachine, pre, post *cmSnap) { o.check(m, post, "advancing blocks") }
-func (o *cmC04) nontrivial(m *chainMachine) bool                 { return o.maxDeployments >= 2 && o.sawLease }
+func (o *cmC04) afterAdvance(m *chainMachine, pre, post *cmSnap) {
+	o.check(m, post, "advancing blocks")
+}
+func (o *cmC04) nontrivial(m *chainMachine) bool { return o.maxDeployments >= 2 && o.sawLease }
 
 var cmLifecycleProfile = cmProfile{weights: map[string]int{
 	"deployCreate": 4, "marketRound": 5, "advance": 5, "provider": 1, "audit": 1,
